@@ -25,9 +25,9 @@ CHECKS = {
    technique="explicit-state BFS with the clock and the GC worker as explicit operations, lower-bound (must-be-present) oracle",
    text="All histories over 2 prefix-related topics x 2 contexts x all five TTL spellings with remove, clock positions exp-1/exp/exp+1, read batteries, single GC steps and drains, reopen; every frame that is not removed, not expired and not evictable by the statement must be returned by every in-scope lookup in every state.",
    note=E1_NOTE),
- "C09": dict(engine="E1-seq", cat="model_checking", ref="DESIGN.md §5 C08/C09",
+ "C09": dict(engine="E1-seq+E2-sched", cat="model_checking", ref="DESIGN.md §5 C08/C09",
    technique="explicit-state BFS with the clock and the GC worker as explicit operations, upper-bound (must-be-absent) oracle",
-   text="Same search as C08 with the upper-bound oracle: ephemeral frames reach exactly the live subscriber and are never stored; no read returns an elapsed time:N frame; after a covering read and a drain it is physically gone; after a drain a topic whose newest frame is head:N holds at most N frames forming a suffix.",
+   text="Same search as C08 with the upper-bound oracle: ephemeral frames reach exactly the live subscriber and are never stored; no read returns an elapsed time:N frame; after a covering read and a drain it is physically gone; after a drain a topic whose newest frame is head:N holds at most N frames forming a suffix. Plus (E2) a clock actor that passes the expiry of a stored time:N frame at every point of a (following or plain) read: the frame is not delivered once the clock had passed its expiry before the scan reached it.",
    note=E1_NOTE),
 
  "C02": dict(engine="E2-sched", cat="model_checking", ref="DESIGN.md §5 C02, §4 E2",
@@ -67,8 +67,8 @@ CHECKS = {
 
  "C04": dict(engine="E3-crash", cat="fault_enumeration", ref="DESIGN.md §5 C04, §4 E3",
    technique="exhaustive crash-point enumeration: strace of the real write paths, every syscall prefix materialised as process-kill / power-loss / torn-write images, each reopened by a fresh process and compared with the acknowledged history",
-   text="Four scripted histories over the real write paths (Store API; 12 KiB frames whose batches exceed fjall's 8 KiB buffer; the HTTP routes with CAS bodies; forced memtable flushes with segment files, journal rotation and manifest renames) are traced at system-call granularity. For every prefix of the store-directory mutations from the first acknowledged operation on, the process-kill image and - wherever the journal holds unsynced bytes - the power-loss image and torn tails of the last unsynced write are reopened: the store must open, every acknowledged append/remove/import must be reflected, the operation in flight must be all-or-nothing across by-id / all-stream / context-stream / head, the registry must equal the stored registrations, and on kill images every visible hash must have its content.",
-   note="Trusted: strace's rendering (checked: the interpreted final state equals the real directory byte for byte), fjall's recovery code is the subject not the model. Power loss is modelled as loss of unsynced journal suffixes and torn tails, not arbitrary sector reordering; directory entries are kept; crash points inside the first creation of the store directory and double faults are not enumerated."),
+   text="Five scripted histories over the real write paths (Store API; 12 KiB frames whose batches exceed fjall's 8 KiB buffer; the HTTP routes with CAS bodies; forced memtable flushes with segment files, journal rotation and manifest renames; a duplicate remove / import arriving while the first one is between commit and fsync) are traced at system-call granularity. For every prefix of the store-directory mutations from the first acknowledged operation on, and for the moment right after every acknowledgement, the process-kill image and - wherever the journal holds unsynced bytes - the power-loss image and torn tails of the last unsynced write are reopened: the store must open, every acknowledged append/remove/import must be reflected, the operation in flight must be all-or-nothing across by-id / all-stream / context-stream / head, the registry must equal the stored registrations, and on kill images every visible hash must have its content. Second generation: process-kill images taken inside an import / remove are reopened by a second traced process that sends the same request again; kill and power-loss images after its acknowledgement must contain the operation.",
+   note="Trusted: strace's rendering (checked: the interpreted final state equals the real directory byte for byte), fjall's recovery code is the subject not the model. Power loss is modelled as loss of unsynced journal suffixes and torn tails, not arbitrary sector reordering; directory entries are kept; crash points inside the first creation of the store directory are not enumerated; double faults only in the kill-reopen-retry form."),
 
  "C15": dict(engine="E5-lifecycle", cat="model_checking", ref="DESIGN.md §5 C15",
    technique="bounded exhaustive enumeration of handler programs (script grammar) executed by the real handler machinery, per-call oracle from the statement",
